@@ -437,6 +437,86 @@ def run_product(case):
     return info(case)
 
 
+
+@st.composite
+def int32_large_case(draw, n_max=6):
+    """Row normalisation of int32 counts whose entries fit the dtype while the row TOTALS do not (> 2**31): the totals
+    are numbers, not int32 values.  (transpose adds C + C.T in the input dtype and mle is not meant for such counts;
+    prior counts would be added in int32 as well - both stay outside this clause.)"""
+    case = draw(builder_case(n_max, builder_names=["normalize"], prior_kinds=("none",), connected=True))
+    C = case["mat"]["C"]
+    top = max(max(r) for r in C)
+    if case["mat"]["dtype"] == "float64" or top <= 0 or any(isinstance(v, float) for r in C for v in r):
+        case["mat"]["C"] = [[0 if v == 0 else max(1, int(v)) for v in r] for r in C]
+        top = max(max(r) for r in case["mat"]["C"])
+        C = case["mat"]["C"]
+    f = (2 ** 31 - 1) // max(top, 1)
+    case["mat"]["C"] = [[int(v) * f for v in r] for r in C]
+    case["mat"]["dtype"] = "int32"
+    case["mat"]["flavour"] = case["mat"]["flavour"] + "/int32_large_totals"
+    return case
+
+
+def run_int32_large(case):
+    run_stochastic(case)
+    run_normalize_exact(case)
+    r = call(case, eq=True)
+    check_prob_vector(r.pi, r.n)
+    require(R.stationarity_residual(r.T, r.pi) <= TOL_STAT, "returned populations are not stationary under the returned T")
+    B = np.array(case["mat"]["C"], dtype=object)
+    over = bool(max(sum(row) for row in B.tolist()) > 2 ** 31 - 1)
+    i = info(case)
+    return Info(over, list(i.classes) + ["row_total_exceeds_int32=%s" % over])
+
+
+
+@st.composite
+def big_sparse_case(draw):
+    """1000+ states in a sparse container: above that size the stationary vector comes from another eigen-solver."""
+    return {"n": draw(st.sampled_from([999, 1000, 1001, 1200])), "seed": draw(st.integers(0, 2 ** 31 - 1)),
+            "fmt": draw(st.sampled_from(["csr_matrix", "coo_matrix", "csc_matrix", "lil_matrix"])),
+            "builder": draw(st.sampled_from(["normalize", "normalize", "transpose"])),
+            "drift": draw(st.sampled_from([1, 2, 4]))}
+
+
+def run_big_sparse(case):
+    n = case["n"]
+    rng = np.random.RandomState(case["seed"])        # seed drawn by Hypothesis
+    idx = np.arange(n)
+    if case.get("topology", "expander") == "ring":
+        # slowly mixing banded ring (hundreds of eigenvalues within 1e-3 of one): see known finding C04-arpack-ring
+        up = rng.randint(1, 30, size=n) * case["drift"]
+        down = rng.randint(1, 30, size=n)
+        stay = rng.randint(0, 50, size=n)
+        hop = rng.randint(1, 10, size=n)
+        rows = np.concatenate([idx, idx, idx, idx])
+        cols = np.concatenate([(idx + 1) % n, (idx - 1) % n, idx, (idx + 7) % n])
+        vals = np.concatenate([up, down, stay, hop]).astype(np.int64)
+    else:
+        # a ring (strongly connected by construction) plus three random far jumps per state: rapidly mixing, one-way
+        # drift on the ring (not reversible, populations far from uniform through the drawn weights)
+        rows = np.concatenate([idx] * 5)
+        cols = np.concatenate([(idx + 1) % n, idx, rng.permutation(n), rng.permutation(n), rng.permutation(n)])
+        vals = np.concatenate([rng.randint(1, 30, size=n) * case["drift"], rng.randint(0, 50, size=n),
+                               rng.randint(1, 40, size=n), rng.randint(1, 40, size=n), rng.randint(1, 40, size=n)]).astype(np.int64)
+    C = getattr(scipy.sparse, case["fmt"])(scipy.sparse.coo_matrix((vals, (rows, cols)), shape=(n, n)))
+    Cd = np.asarray(C.toarray(), dtype=np.float64)
+    out = getattr(builders, case["builder"])(C, calculate_eq_probs=True)
+    require(isinstance(out, tuple) and len(out) == 3, "builder must return (C, T, eq_probs)")
+    T = R.to_dense(out[1])
+    pi = np.asarray(out[2], dtype=float).ravel()
+    B = Cd if case["builder"] == "normalize" else Cd + Cd.T
+    want = B / B.sum(axis=1, keepdims=True)
+    require(np.max(np.abs(T - want)) <= 1e-12, "T != counts / row totals on a large sparse matrix")
+    check_prob_vector(pi, n)
+    res = float(np.max(np.abs(pi @ T - pi)))
+    require(res <= 1e-9, "returned populations are not stationary under the returned T (large sparse input)",
+            residual=res, n=n, uniform_residual=float(np.max(np.abs(np.full(n, 1.0 / n) @ T - 1.0 / n))))
+    require(np.array_equal(np.asarray(C.toarray()), Cd), "the caller's matrix was changed")
+    return Info(n >= 1000, ["big_n=%d" % n, "big_fmt=" + case["fmt"], "big_builder=" + case["builder"]],
+                key=[n, case["seed"], case["fmt"], case["builder"], case["drift"]])
+
+
 def _cl(name, strat_quick, strat_thorough, run, quick, thorough, **kw):
     """The base clause (small sizes) runs in both tiers; the *_large twin (bigger matrices) only in thorough."""
     return [Clause(name, strat_quick, run, quick=quick, thorough=thorough // 2, **kw),
@@ -464,8 +544,20 @@ CLAUSES += _cl("input_unchanged", builder_case(6), builder_case(10), run_input_u
 CLAUSES += _cl("input_unchanged_aliasing", builder_case(6, aliasing=True, prior_kinds=("none", "none", "int", "matrix")),
                builder_case(10, aliasing=True, prior_kinds=("none", "none", "int", "matrix")), run_input_unchanged,
                600, 6000)
+CLAUSES += [Clause("normalize_int32_large_totals", int32_large_case(), run_int32_large, quick=200, thorough=3000)]
+CLAUSES += [Clause("stationary_large_sparse", big_sparse_case(), run_big_sparse, quick=12, thorough=120)]
 CLAUSES += [Clause("product", builder_case(4), run_product, quick=0, thorough=0, exhaustive=exhaustive_product)]
 CLAUSES += [Clause("sparse_array_observed", builder_case(5, outside=True), run_sparse_array,
                    quick=160, thorough=1500)]
 
-MATCHERS = {}
+def match_arpack_ring(case, exc):
+    """Known finding C04-arpack-ring: for a slowly mixing banded ring of >= 1000 states in a sparse container the
+    ARPACK call behind eq_probs()/eigenspectrum() (k=3, default Krylov size, tol=1e-30) returns converged Ritz values
+    that do NOT include the eigenvalue one, so the 'populations' are a normalised non-Perron vector (entries of
+    +-1e12).  Matched: an oracle Violation about the populations on a case of exactly that topology (the generator of
+    the clause draws rapidly mixing chains only; the ring is the committed witness)."""
+    return (type(exc).__name__ == "Violation" and case.get("topology") == "ring" and case.get("n", 0) >= 1000
+            and "populations" in str(exc))
+
+
+MATCHERS = {"arpack_ring_misconvergence": match_arpack_ring}
